@@ -120,10 +120,23 @@ Definition item_data (asz : N) (be : bool) (i : aug_item) : list byte :=
   | AS => []
   end.
 
+(* the 'L' / 'R' encoding in force: a later occurrence overrides an earlier one *)
 Fixpoint find_L (l : list aug_item) : option N :=
-  match l with [] => None | AL e :: _ => Some e | _ :: r => find_L r end.
+  match l with
+  | [] => None
+  | i :: r => match find_L r with
+              | Some e => Some e
+              | None => match i with AL e => Some e | _ => None end
+              end
+  end.
 Fixpoint find_R (l : list aug_item) : option N :=
-  match l with [] => None | AR e :: _ => Some e | _ :: r => find_R r end.
+  match l with
+  | [] => None
+  | i :: r => match find_R r with
+              | Some e => Some e
+              | None => match i with AR e => Some e | _ => None end
+              end
+  end.
 Definition has_aug (c : cie_rec) : bool := c_z c || negb (match c_items c with [] => true | _ => false end).
 
 (* section-level parameters: eh = .eh_frame, asz0 = address size of the target (used unless the
